@@ -19,14 +19,29 @@ import (
 //	every build-mode path (reaching definitions restricted to the paths of the mode);
 //	a result 0 is replaced by 1 and (self-parent frame, fv) is what is returned.
 func c04Loop(c *core.Ctx) {
-	f := c.Fn(ordT + ".calcFrameIdx")
-	e, checkOnly := f.Param(0), f.Param(1)
-	c.Need(e != nil && checkOnly != nil, "calcFrameIdx(e, checkOnly) has two named parameters")
-	qs := f.CallsTo(ordT + ".forklessCausedByQuorumOn")
-	c.Need(len(qs) == 1 && len(qs[0].Call.Args) == 2, "calcFrameIdx has exactly one forklessCausedByQuorumOn test")
-	q := qs[0]
-	fvar := varOf(f, q.Call.Args[1])
-	c.Need(fvar != nil && canonVar(f, varOf(f, q.Call.Args[0])) == e, "the quorum test is forklessCausedByQuorumOn(e, <frame variable>)")
+	an := c04Locate(c)
+	for _, pr := range an.problems {
+		c.Need(false, pr)
+	}
+	c.Need(an.build != nil && an.check != nil, "the frame search has a build-side and a processing-side caller")
+	f, e, checkOnly, q := an.search, an.e, an.modeP, an.q
+	c.Need(an.nres == 1 || an.nres == 2, short(f.Name)+" returns the frame (optionally preceded by the self-parent's frame)")
+	// the frame variable: the local integer variable the quorum test is asked for
+	var fvar *types.Var
+	for _, arg := range q.Call.Args {
+		v := varOf(f, arg)
+		if v == nil || canonVar(f, v) == e || c04ParamIndex(f, v) >= 0 {
+			continue
+		}
+		if b, isBasic := v.Type().Underlying().(*types.Basic); isBasic && b.Info()&types.IsInteger != 0 {
+			fvar = v
+		}
+	}
+	c.Need(fvar != nil, "the quorum test is forklessCausedByQuorumOn(e, <frame variable>)")
+	isInt := func(v *types.Var) bool {
+		b, isBasic := v.Type().Underlying().(*types.Basic)
+		return isBasic && b.Info()&types.IsInteger != 0
+	}
 
 	// named results
 	var res []*types.Var
@@ -38,11 +53,14 @@ func c04Loop(c *core.Ctx) {
 			}
 		}
 	}
-	// the self-parent frame variable: named result 0, else the variable every return gives as result 0
+	// the self-parent frame variable: with two results, named result 0, else the variable every return gives
+	// as result 0; with one result, the variable the frame variable is started from (a local, or a parameter
+	// whose value the callers compute)
 	var spf *types.Var
-	if len(res) == 2 {
+	switch {
+	case an.nres == 2 && len(res) == 2:
 		spf = res[0]
-	} else {
+	case an.nres == 2:
 		for _, rp := range f.ReturnPoints() {
 			r := rp.Node().(*ast.ReturnStmt)
 			if len(r.Results) != 2 {
@@ -56,33 +74,25 @@ func c04Loop(c *core.Ctx) {
 			}
 			spf = v
 		}
+	default:
+		for _, a := range assignsToVar(f, fvar) {
+			if a.RHS == nil || a.Tok == token.INC || a.Tok == token.ADD_ASSIGN {
+				continue
+			}
+			if as, isAs := a.Stmt.(*ast.AssignStmt); isAs && len(as.Lhs) != len(as.Rhs) {
+				continue
+			}
+			if v := canonVar(f, varOf(f, core.StripConv(f.Info(), a.RHS))); v != nil && v != fvar && isInt(v) && spf == nil {
+				spf = v
+			}
+		}
 	}
-	c.Need(spf != nil, "calcFrameIdx returns the self-parent's frame in a variable (first result)")
+	c.Need(spf != nil, "calcFrameIdx starts the search from a variable holding the self-parent's frame")
+	spfParam := c04ParamIndex(f, spf)
 	isSpf := func(x ast.Expr) bool {
 		return x != nil && canonVar(f, varOf(f, core.StripConv(f.Info(), x))) == spf
 	}
-
-	// ---- self-parent frame: the stored self-parent's frame when there is a self-parent, 0 otherwise
-	isSelfParent := func(x ast.Expr) bool {
-		if st, ok := ast.Unparen(x).(*ast.StarExpr); ok {
-			x = st.X
-		}
-		return c04MethodOn(f, x, "SelfParent", e) != nil
-	}
-	hasSP := func(want bool) func(core.Fact) bool { return c04NilCmp(f, isSelfParent, !want) }
-	spFrame := func(a assignment) bool {
-		call, ok := resolveLocal(f, a.RHS).(*ast.CallExpr)
-		if !ok || !methodNamed(calleeName(f, call), "Frame") {
-			return false
-		}
-		sel, ok := ast.Unparen(call.Fun).(*ast.SelectorExpr)
-		if !ok {
-			return false
-		}
-		get := isCallTo(f, sel.X, "abft.EventSource.GetEvent")
-		return get != nil && len(get.Args) == 1 && isSelfParent(get.Args[0])
-	}
-	zeroVal := func(a assignment) bool { return core.IsConstInt(f.Info(), a.RHS, 0) }
+	spfVal := c04Spf{2}
 
 	// ---- definitions of the frame variable
 	var inits, incs, ones []assignment
@@ -124,15 +134,34 @@ func c04Loop(c *core.Ctx) {
 	starts := append(append([]assignment{}, inits...), incs...)
 
 	rets := f.ReturnPoints()
-	okSP, _, posSP, witSP := c04LastDef(f, spf, append(append([]core.Point{}, initPts...), rets...), f.GuardEdges(hasSP(false)), spFrame, false)
-	okNoSP, _, posNoSP, witNoSP := c04LastDef(f, spf, append(append([]core.Point{}, initPts...), rets...), f.GuardEdges(hasSP(true)), zeroVal, len(res) == 2)
-	switch {
-	case !okSP:
-		c.Fail("self-parent frame is the stored self-parent's frame", "provenance (reaching definitions)", posSP, "for an event with a self-parent the starting frame is not always GetEvent(*e.SelfParent()).Frame(): "+witSP)
-	case !okNoSP:
-		c.Fail("self-parent frame is the stored self-parent's frame", "provenance (reaching definitions)", posNoSP, "for an event without self-parent the starting frame is not 0 (the event would not get frame 1): "+witNoSP)
-	default:
-		c.Pass("self-parent frame is the stored self-parent's frame", "provenance (reaching definitions)", "selfParentFrame = GetEvent(*e.SelfParent()).Frame() on every path where a self-parent exists, else 0")
+	{
+		okS, whyS, posS := true, "", f.Pos()
+		if spfParam >= 0 {
+			// the callers compute the value: decided at each call site, for the caller's event
+			if _, stable := c05StableParam(f, spf); !stable {
+				okS, whyS = false, "the parameter holding the self-parent's frame is modified in "+short(f.Name)
+			}
+			for _, cl := range []*c04Caller{an.build, an.check} {
+				if !okS {
+					break
+				}
+				if spfParam >= len(cl.cs.Call.Args) || cl.ev == nil {
+					okS, whyS, posS = false, "the call does not pass a starting frame for its event", cl.cs.Pos()
+					continue
+				}
+				if o, w := spfVal.expr(cl.f, cl.ev, cl.cs.Call.Args[spfParam], cl.cs.Pt); !o {
+					okS, whyS, posS = false, "in "+short(cl.f.Name)+": "+w, cl.cs.Pos()
+				}
+			}
+		} else {
+			uses := append([]core.Point{}, initPts...)
+			if an.nres == 2 {
+				uses = append(uses, rets...)
+			}
+			okS, whyS = spfVal.variable(f, e, spf, uses, len(res) == 2)
+		}
+		c.Check(okS, "self-parent frame is the stored self-parent's frame", "provenance (reaching definitions)", posS,
+			"the starting frame is GetEvent(*e.SelfParent()).Frame() on every path where a self-parent exists, else 0 (decided in the search function or at its callers)", whyS)
 	}
 
 	// ---- start value and step
@@ -319,6 +348,35 @@ func c04Loop(c *core.Ctx) {
 	if bound == nil {
 		c.Undecided("build bound is the self-parent's frame + 100", "T15 ConstRelation", f.Pos(), "the bound of the frame search is not a single local variable")
 		c.Undecided("processing bound is the claimed frame", "T8 DecisionTable", f.Pos(), "the bound of the frame search is not a single local variable")
+	} else if bi := c04ParamIndex(f, bound); bi >= 0 {
+		// the callers pass the bound in: decided at the call sites, each for its own event
+		_, stable := c05StableParam(f, bound)
+		bcl, ccl := an.build, an.check
+		okB := stable && bi < len(bcl.cs.Call.Args) && bcl.ev != nil
+		if okB {
+			g := bcl.f
+			l := core.Linearize(g.Info(), resolveLocal(g, bcl.cs.Call.Args[bi]), func(x ast.Expr) string {
+				if o, _ := spfVal.expr(g, bcl.ev, x, bcl.cs.Pt); o {
+					return "spf"
+				}
+				return ""
+			})
+			okB = c04LinIs(l, "spf", 100)
+		}
+		c.Check(okB, "build bound is the self-parent's frame + 100", "T15 ConstRelation (bound passed by the build-side caller)", bcl.cs.Pos(),
+			"the build-side caller passes selfParentFrame + 100 as the bound of the search",
+			"in build mode the bound of the frame search is not selfParentFrame + 100 (the value "+short(bcl.f.Name)+" passes)")
+		okC := stable && bi < len(ccl.cs.Call.Args) && ccl.ev != nil
+		if okC {
+			call := c04MethodOn(ccl.f, ccl.cs.Call.Args[bi], "Frame", ccl.ev)
+			okC = call != nil && len(call.Args) == 0
+		}
+		c.Check(okC, "processing bound is the claimed frame", "T8 DecisionTable (bound passed by the processing-side caller)", ccl.cs.Pos(),
+			"the processing-side caller passes e.Frame() as the bound of the search",
+			"in check mode the bound of the frame search is not the claimed frame e.Frame() (another limit, e.g. the Build cap, clamps processing, so an allowed claimed frame is answered with ErrWrongFrame): the value "+short(ccl.f.Name)+" passes")
+	} else if checkOnly == nil {
+		c.Undecided("build bound is the self-parent's frame + 100", "T15 ConstRelation", f.Pos(), "the bound of the frame search is a local of a search function without a mode parameter")
+		c.Undecided("processing bound is the claimed frame", "T8 DecisionTable", f.Pos(), "the bound of the frame search is a local of a search function without a mode parameter")
 	} else {
 		claimed := func(a assignment) bool {
 			call := c04MethodOn(f, a.RHS, "Frame", e)
@@ -355,10 +413,25 @@ func c04Loop(c *core.Ctx) {
 			return k && (lc.Equal(core.ParseLinCmp("f == 0")) || lc.Equal(core.ParseLinCmp("f <= 0")))
 		}
 		nonZero := func(ft core.Fact) bool { return isZero(c04Negate(ft)) }
-		ok, pos, why := len(ones) > 0, f.Pos(), "a calculated frame 0 is not replaced by 1"
+		// with a single result, `return 1` behind the zero test is the replacement as well
+		var oneRets []core.Point
+		if an.nres == 1 {
+			for _, rp := range rets {
+				if r, _ := rp.Node().(*ast.ReturnStmt); r != nil && len(r.Results) == 1 && core.IsConstInt(f.Info(), r.Results[0], 1) {
+					oneRets = append(oneRets, rp)
+				}
+			}
+		}
+		isOneRet := core.PointSet(oneRets...)
+		ok, pos, why := len(ones)+len(oneRets) > 0, f.Pos(), "a calculated frame 0 is not replaced by 1"
 		fail := func(p token.Pos, s string) {
 			if ok {
 				ok, pos, why = false, p, s
+			}
+		}
+		for _, rp := range oneRets {
+			if g, wit := f.GuardedBy(rp, isZero); !g {
+				fail(posOf(rp), "1 is returned although the frame was not 0: "+f.DescribePath(wit))
 			}
 		}
 		for _, o := range ones {
@@ -370,7 +443,7 @@ func c04Loop(c *core.Ctx) {
 			}
 		}
 		if ok {
-			avoid := core.PointSet(append(append([]core.Point{}, onePts...), incPts...)...)
+			avoid := core.PointSet(append(append(append([]core.Point{}, onePts...), incPts...), oneRets...)...)
 			for _, d := range starts {
 				path, found := core.PathQuery{F: f, From: d.Pt, FromAfter: true, TargetExit: true, Avoid: avoid, AvoidEdge: f.GuardEdges(nonZero)}.Find()
 				if found {
@@ -381,11 +454,15 @@ func c04Loop(c *core.Ctx) {
 		for _, rp := range rets {
 			r := rp.Node().(*ast.ReturnStmt)
 			good := false
-			switch len(r.Results) {
-			case 2:
+			switch {
+			case isOneRet(rp):
+				good = true
+			case len(r.Results) == 2 && an.nres == 2:
 				good = isSpf(r.Results[0]) && varOf(f, r.Results[1]) == fvar
-			case 0:
-				good = len(res) == 2 && res[0] == spf && res[1] == fvar
+			case len(r.Results) == 1 && an.nres == 1:
+				good = varOf(f, r.Results[0]) == fvar
+			case len(r.Results) == 0:
+				good = (len(res) == 2 && res[0] == spf && res[1] == fvar) || (len(res) == 1 && res[0] == fvar)
 			}
 			if !good {
 				fail(r.Pos(), "a return does not give (self-parent frame, frame variable of the search)")
